@@ -127,7 +127,19 @@ def run(chk):
             elif structs:
                 si = chk.rng.choice(structs)
                 if mode == "undeclared":
-                    name = chk.rng.choice(["Nope", "Missing_t", "S99"]); expect_err = (name, items[si][1])
+                    name = chk.rng.choice(["Nope", "Missing_t", "S99"])
+                    declared = [it[1] for it in items if it[0] in ("struct", "enum")]
+                    if chk.rng.random() < 0.5:
+                        # a name that differs from a declared one only in spelling style (case, underscores): still undeclared
+                        import re as _re
+                        base = chk.rng.choice(declared)
+                        near = [base.lower(), base.upper(), base.replace("_", ""), base[0].lower() + base[1:], base[0] + "_" + base[1:],
+                                _re.sub(r"(?<!^)(?=[A-Z])", "_", base).lower()]
+                        near = [x for x in near if x not in declared and x and not x[0].isdigit()
+                                and not _re.match(r"(str|f32|f64|[ui]\d)", x)]          # (not the built-in prefix shapes: their own mode)
+                        if near:
+                            name = chk.rng.choice(near)
+                    expect_err = (name, items[si][1])
                 elif mode == "self":
                     name = items[si][1]; expect_err = (name, items[si][1])
                 elif mode == "forward":
